@@ -62,18 +62,18 @@ package webrtc
 //@ modifies nothing
 
 // ---- fields set by the constructor and never reassigned ----
-//@ field PeerConnection.isClosed props C01 C02 C03 C21 C39 writers (*API).NewPeerConnection
-//@ field PeerConnection.isNegotiationNeeded props C01 C02 C03 C21 C39 writers (*API).NewPeerConnection
-//@ field PeerConnection.updateNegotiationNeededFlagOnEmptyChain props C01 C02 C03 C21 C39 writers (*API).NewPeerConnection
-//@ field PeerConnection.ops props C01 C02 C03 C21 C39 writers (*API).NewPeerConnection
-//@ field PeerConnection.api props C01 C02 C03 C21 C39 writers (*API).NewPeerConnection
+//@ field PeerConnection.isClosed props C04 C01 C02 C03 C21 C39 writers (*API).NewPeerConnection
+//@ field PeerConnection.isNegotiationNeeded props C04 C01 C02 C03 C21 C39 writers (*API).NewPeerConnection
+//@ field PeerConnection.updateNegotiationNeededFlagOnEmptyChain props C04 C01 C02 C03 C21 C39 writers (*API).NewPeerConnection
+//@ field PeerConnection.ops props C04 C01 C02 C03 C21 C39 writers (*API).NewPeerConnection
+//@ field PeerConnection.api props C04 C01 C02 C03 C21 C39 writers (*API).NewPeerConnection
 //@ field PeerConnection.idpLoginURL props C21 writers (*API).NewPeerConnection
-//@ field PeerConnection.log props C01 C02 C03 C21 C39 writers (*API).NewPeerConnection
+//@ field PeerConnection.log props C04 C01 C02 C03 C21 C39 writers (*API).NewPeerConnection
 //@ field API.settingEngine props C01 C13 writers NewAPI, WithSettingEngine$1, (*API).NewPeerConnection
 //@ field API.mediaEngine props C01 writers NewAPI, WithMediaEngine$1, (*API).NewPeerConnection
 
 // ---- write-sets of the negotiation fields (C01, C02, C03) ----
-//@ field PeerConnection.signalingState props C01 C02 C03 writers (*PeerConnection).setDescription, (*PeerConnection).close, (*API).NewPeerConnection
+//@ field PeerConnection.signalingState props C04 C01 C02 C03 writers (*PeerConnection).setDescription, (*PeerConnection).close, (*API).NewPeerConnection
 //@ field PeerConnection.pendingLocalDescription props C01 C02 C03 writers (*PeerConnection).setDescription$1, (*API).NewPeerConnection
 //@ field PeerConnection.pendingRemoteDescription props C01 C02 C03 writers (*PeerConnection).setDescription$1, (*API).NewPeerConnection
 //@ field PeerConnection.currentLocalDescription props C01 C02 C03 writers (*PeerConnection).setDescription$1, (*API).NewPeerConnection
@@ -253,7 +253,7 @@ package webrtc
 
 // ---------------------------------------------------------------- C21 (finality of Close)
 // The closed flag lives in the atomic.Bool that pc.isClosed points to: only close writes it.
-//@ field PeerConnection.isClosed* props C21 C22 writers (*PeerConnection).close
+//@ field PeerConnection.isClosed* props C04 C21 C22 writers (*PeerConnection).close
 //@ field PeerConnection.connectionState props C21 C22 writers (*PeerConnection).onConnectionStateChange, (*API).NewPeerConnection
 //@ field PeerConnection.sctpTransport props C21 writers (*API).NewPeerConnection
 //@ field PeerConnection.dtlsTransport props C21 writers (*API).NewPeerConnection
